@@ -238,7 +238,7 @@ _extend("C02", [("c03", "r4_intervals", (), _has("RemoveBeforeMatch", "RemoveAft
 _extend("C07", [("c01", "r1_min_overlap_clamp", (), ALL, "the prefilter is built for overlaps of at least one base; a zero overlap makes the aligner report empty matches the prefilter cannot see")])
 
 # eighth round
-_extend("C15", [("c19", "r4_interleaved", (), ALL, "the demultiplexers open two-file writers without saying 'interleaved': the default must not follow --interleaved input"),
+_extend("C15", [("c19", "r4_writer_layout", (), ALL, "the demultiplexers open two-file writers without saying 'interleaved': the default must not follow --interleaved input"),
                 ("c17", "r4_names", (), ALL, "an unnamed (linked) adapter gets a generated name: the {name} file of its reads is named after it")])
 _extend("C17", [("builder_rules", "c10", ("quick",), lambda o: "length of 0" in o.construct or "decides only about its own cutter" in o.construct or "returns a record" in o.construct, "a cutter of length 0 returns None: the read never reaches the info-file writer")])
 _extend("C18", [("c09", "r5_defaults", (), ALL, "required/optional of a linked adapter's parts follow the documented defaults for -a versus -g, and an explicit ;required / ;optional decides alone"),
